@@ -213,8 +213,11 @@ def targets(ctx):
 
     gstrat = st.tuples(schema_ast(max_packages=2, services=False), st.lists(st.integers(0, 2**20), min_size=4, max_size=4)).map(lambda t: {"ast": t[0], "vseeds": t[1]})
 
+    from . import _seq
+
     return [
         Target("grammar_schema_values", grammar_ev, strategy=gstrat, quick=3, thorough=40, time_quick=60, time_thorough=900, pin_budget=10, pin_sigs=1),
         Target("corpus_values_reencoded", ev, strategy=strat(), quick=450, thorough=6000, time_quick=70),
         Target("dense_reencodings", ev, strategy=dense(), quick=350, thorough=5000, time_quick=70),
+        _seq.target("C02"),
     ]
